@@ -1,0 +1,70 @@
+//go:build verif
+
+// Contracts for the govc verifier (see /verif/DESIGN.md). Comment-only file.
+package validators
+
+//@ # ---------------------------------------------------------------- absence window (C18)
+//@ # number of set bits among the first n positions of the window
+//@ spec absentCount(b *types.BitArray, n int) int = n <= 0 ? 0 : absentCount(b, n-1) + (bit(b, n-1) ? 1 : 0)
+
+//@ func (*Validator).SetAbsent
+//@   serves C18
+//@   requires v != nil && v.AbsentTimes != nil && v.AbsentTimes.Bits == 24
+//@   requires height <= 9223372036854775807
+//@   ensures marked: bit(v.AbsentTimes, mod(height, 24))
+//@   ensures others: forall i int :: i != mod(height, 24) ==> (bit(v.AbsentTimes, i) <==> old(bit(v.AbsentTimes, i)))
+//@   modifies bit(v.AbsentTimes, mod(height, 24)), v.isDirty
+//@ func (*Validator).SetPresent
+//@   serves C18
+//@   requires v != nil && v.AbsentTimes != nil && v.AbsentTimes.Bits == 24
+//@   requires height <= 9223372036854775807
+//@   ensures cleared: !bit(v.AbsentTimes, mod(height, 24))
+//@   ensures others: forall i int :: i != mod(height, 24) ==> (bit(v.AbsentTimes, i) <==> old(bit(v.AbsentTimes, i)))
+//@   modifies bit(v.AbsentTimes, mod(height, 24)), v.isDirty
+//@ func (*Validator).CountAbsentTimes
+//@   serves C18
+//@   requires v != nil && v.AbsentTimes != nil && v.AbsentTimes.Bits == 24
+//@   ensures counted: result == absentCount(v.AbsentTimes, 24)
+//@   modifies nothing
+//@   loop 0 invariant idx: 0 <= i && i <= 24 && 0 <= count && count <= i
+//@   loop 0 invariant sum: count == absentCount(v.AbsentTimes, i)
+
+//@ # ---------------------------------------------------------------- validators by consensus address
+//@ # valByTm(v, a): the validator with consensus address a (nil: none). ASSUMED representation axiom for the lookup.
+//@ ghost valByTm(v *Validators, a types.TmAddress) *Validator
+//@ func (*Validators).GetByTmAddress
+//@   trusted
+//@   ensures result == valByTm(v, address)
+//@   modifies nothing
+
+//@ # C18: the block is recorded as missed; with more than 12 misses among the last 24 blocks the validator is dropped and
+//@ # its candidate switched off, and - unless the block is a grace block - jailed for the jail period; with 12 or fewer
+//@ # nothing else happens
+//@ func (*Validators).SetValidatorAbsent
+//@   serves C18
+//@   let val = valByTm(v, address)
+//@   let k = mod(height, 24)
+//@   # w: the window object the block is recorded in; misses: its set bits after recording (evaluated in the post-state: the
+//@   # object survives even when the validator then gets a fresh, empty window)
+//@   let w = old(val.AbsentTimes)
+//@   let misses = absentCount(w, 24)
+//@   ensures recorded: val != nil ==> bit(w, k) && forall i int :: i != k ==> (bit(w, i) <==> old(bit(w, i)))
+//@   let isgrace = grace != nil && exists i int :: 0 <= i && i < len(grace.gracePeriods) && grace.gracePeriods[i].from <= height && height <= grace.gracePeriods[i].to
+//@   requires v != nil && v.bus != nil && height <= 9223372036854775807
+//@   requires val != nil ==> val.AbsentTimes != nil && val.AbsentTimes.Bits == 24
+//@   requires grace != nil ==> forall i int :: 0 <= i && i < len(grace.gracePeriods) ==> grace.gracePeriods[i] != nil
+//@   ensures unknownvalidator: val == nil ==> busOffline == old(busOffline) && busJailedUntil == old(busJailedUntil) && bit == old(bit)
+//@   ensures dropped: val != nil && misses > 12 ==> val.toDrop && busOffline(v.bus.candidates, val.PubKey)
+//@   ensures windowreset: val != nil && misses > 12 ==> val.AbsentTimes != nil && val.AbsentTimes != w && forall i int :: !bit(val.AbsentTimes, i)
+//@   ensures jailed: val != nil && misses > 12 && !isgrace ==> busJailedUntil(v.bus.candidates, address) == mod(height + (types.CurrentChainID == types.ChainTestnet ? 354 : 17280), 18446744073709551616)
+//@   ensures gracenojail: val != nil && misses > 12 && isgrace ==> busJailedUntil == old(busJailedUntil)
+//@   ensures tolerated: val != nil && misses <= 12 ==> val.toDrop == old(val.toDrop) && busOffline == old(busOffline) && busJailedUntil == old(busJailedUntil) && val.AbsentTimes == w
+
+//@ # C18: byzantine validator: stake zero, dropped
+//@ func (*Validators).PunishByzantineValidator
+//@   serves C18
+//@   let val = valByTm(v, tmAddress)
+//@   requires v != nil
+//@   requires val != nil ==> val.totalStake != nil
+//@   ensures dropped: val != nil ==> val.toDrop && val.totalStake != nil && val.totalStake.val == 0
+//@   ensures unknownvalidator: val == nil ==> allof(Validator.toDrop) == old(allof(Validator.toDrop))
